@@ -66,7 +66,7 @@ CHECKS = {
     technique="TLA+ run-equality / no-duplicate contract (Trace_Runs) + TLC-simulated programs linted repeatedly in-process and in separate processes + TLC trace validation"),
  "C12": dict(
     category="model_checking",
-    text="TLC enumerates every history of extra pass runs over {value analysis, ecall termination, liveness} of length 1..3 (Gen_Hist, 39 histories, exhaustive). For each program (Gen_Values / Gen_Flow simulation, corpus incl. nested loops, irreducible flow, recursion, many call sites) and each history the harness analyses a clone of the same parsed program, applies the history with the real passes and records the observables after every step plus the sweep counters from the rva_verif hooks. Trace_Stable is a stateful trace specification: `analysed` must reproduce the first analysis of the program, `extra(pass)` is accepted only as stuttering on nodes/edges/values/live sets/u_def/functions/lints, and every pass run must stay within 2N+3 sweeps.",
+    text="TLC enumerates every history of extra pass runs over {value analysis, ecall termination, liveness} of length 1..3 (Gen_Hist, 39 histories, exhaustive). For each program (Gen_Values / Gen_Flow simulation, corpus incl. nested loops, irreducible flow, recursion, many call sites) and each history the harness analyses a clone of the same parsed program, applies the history with the real passes and records the observables after every step plus the sweep counters from the rva_verif hooks. Trace_Stable is a stateful trace specification: `analysed` must reproduce the first analysis of the program, `extra(pass)` is accepted only as stuttering on nodes/edges/values/live sets/u_def/functions/lints, and every pass run must stay within 4N+3 sweeps (the limit PassLoop.tla establishes for the iteration scheme: 4N-1 is reached by chains of dead loops). The as-built layer is part of the check: PassLoop.tla (one action per critical section of AvailableValuePass::run - Visit, SweepEnd, Cut, Rerun) is model-checked exhaustively over all graphs with N<=3 (N<=4 thorough) for SweepBound, FixedPoint, Stable, AllVisited and termination, its two pre-repair variants must be refuted (negative controls), and step traces recorded from the real value and liveness pass loops (hooks pass_begin/visit/sweep_end) are validated by Trace_PassLoop against the same operators (PassOps.tla): a run that ends off the fixed point of the meet/join equation or a re-run that changes facts is a violation, any other departure is reported as SPEC-DRIFT.",
     design_ref="DESIGN.md §5 C12",
     note="Trusted: TLC, harness projection (canonical JSON per observable group), rva_verif sweep hooks. Lint lists are compared order-insensitively (order is C10's).",
     technique="TLA+ stateful trace specification (Trace_Stable: extra passes = stuttering) + TLC-enumerated pass histories replayed with the real passes + sweep-counter hooks"),
@@ -114,7 +114,7 @@ CHECKS = {
     technique="TLA+ violation injectors with by-construction expectations (Gen_Conform) + replay into the real pipeline + TLC trace validation of kind and location"),
  "C06": dict(
     category="exploration",
-    text="Exploration of a structured, bounded input model, judged by Trace_Robust (the only accepted run is start -> diagnostics -> end; panic, watchdog timeout, crash, non-zero exit are events no action matches): all strings over a 26-symbol lexer alphabet (quotes, backslash, u, digits, '#', '.', ':', parentheses, '-', ',', blank, tab, CR, LF, NUL, 2-/3-/4-byte code points, '@', '+') up to length 3|4, exhaustive from Gen_Strings; boundary-grid programs of Gen_Overflow (28 shapes of folding, immediates, sp arithmetic, offsets, data, CSR); every include graph over three files incl. self loops, cycles and missing files (Gen_IncGraph), also with a reader that never reports cycles; Gen_Values / Gen_Flow simulations; token- and line-level mutations and truncations of corpus programs; scaled programs for the sweep bound 2N+3 (rva_verif counters); the rva binary in 10 output modes (debug; release in the thorough tier).",
+    text="Exploration of a structured, bounded input model, judged by Trace_Robust (the only accepted run is start -> diagnostics -> end; panic, watchdog timeout, crash, non-zero exit are events no action matches): all strings over a 26-symbol lexer alphabet (quotes, backslash, u, digits, '#', '.', ':', parentheses, '-', ',', blank, tab, CR, LF, NUL, 2-/3-/4-byte code points, '@', '+') up to length 3|4, exhaustive from Gen_Strings; boundary-grid programs of Gen_Overflow (28 shapes of folding, immediates, sp arithmetic, offsets, data, CSR); every include graph over three files incl. self loops, cycles and missing files (Gen_IncGraph), also with a reader that never reports cycles; Gen_Values / Gen_Flow simulations; token- and line-level mutations and truncations of corpus programs; scaled programs for the sweep bound 4N+3 (rva_verif counters); the rva binary in 10 output modes (debug; release in the thorough tier).",
     design_ref="DESIGN.md §5 C06",
     note="Crash-freedom over arbitrary Unicode is a fuzzing question; this check decides it only for the input model above (stated in the evidence). Debug profile with overflow checks for the library entry point. Trusted: TLC generators, harness watchdog (10 s), driver.",
     technique="TLC-enumerated adversarial input model (strings, boundary programs, include graphs) replayed under a watchdog + TLA+ totality trace specification (Trace_Robust) + sweep-counter hooks"),
@@ -127,7 +127,7 @@ m = {
    "guard": "rva_verif",
    "enable": "RUSTFLAGS='--cfg rva_verif --check-cfg cfg(rva_verif)' (set by /verif/harness/.cargo/config.toml and lib/vlib.py build_cli)",
    "baseline_off_cmd": "cd /repo && cargo test --workspace --no-fail-fast --offline",
-   "source_commits": ["e4948f8"],
+   "source_commits": ["e4948f8", "13ffbe8"],
    "add_only": True,
  },
  "engines": [
